@@ -410,12 +410,12 @@ def gen_dssr(rng, names, hard):
     for k in range(rng.randint(0, 3)):
         m = {}
         if rng.random() < 0.85:
-            m["model"] = rng.choice([k + 1, k + 1, 1, 7])
+            m["model"] = rng.choice([k + 1, k + 1, 1, 7, 0])
         if rng.random() < 0.85:
             m["parameters"] = gen_params(rng, names, hard)
         ms.append(m)
     doc["models"] = ms
-    return doc, rng.choice([None, None, 1, 2, 7])
+    return doc, rng.choice([None, None, 1, 2, 7, 0])
 
 
 # ---------------------------------------------------------------- comparison helpers
@@ -799,6 +799,7 @@ def run(ctx):
             res.fail("corr", "C19:glue:" + tool, {"kind": "glue", "tool": tool},
                      "public entry points disagree with the importer on tests/184D: %r" % (ok,))
     __import__("corr.fn_common", fromlist=["run_fn"]).run_fn(ctx, res, "C19")  # regenerated functions vs the real ones (tools/py2lean.py)
+    cli_adapter(ctx, res)
     return res
 
 
@@ -877,7 +878,153 @@ def shrink(ctx, failure):
     return failure
 
 
+# ---------------------------------------------------------------- the command-line tool
+def _adapter_main(job):
+    """adapter.main on (structure text, listing text, flags) in a scratch directory; next to it what the library functions
+    give for the same two files (plain data)"""
+    import contextlib
+    import io
+    import logging
+    import sys
+    cif, listing, flags = job
+    from rnapolis import adapter as A
+    from rnapolis.parser import read_3d_structure
+    from corr.c11 import expected_csv, expected_json
+    logging.disable(logging.CRITICAL)
+    d = tempfile.mkdtemp(prefix="c19-cli-")
+    sp, lp = os.path.join(d, "s.cif"), os.path.join(d, "listing.txt")
+    open(sp, "w").write(cif)
+    open(lp, "w").write(listing)
+    argv = [sp, "--external", lp, "--tool", "fr3d"]
+    files = {"-c": "o.csv", "-j": "o.json", "-b": "o.bpseq"}
+    for o in flags:
+        argv.append(o)
+        if o in files:
+            argv.append(os.path.join(d, files[o]))
+    out = {}
+    old, buf = sys.argv, io.StringIO()
+    sys.argv = ["adapter"] + argv
+    try:
+        with contextlib.redirect_stdout(buf), contextlib.redirect_stderr(io.StringIO()):
+            try:
+                A.main()
+                out["main"] = "ok"
+            except SystemExit as e:
+                out["main"] = "exit:%r" % (e.code,)
+            except Exception as e:  # noqa: BLE001
+                out["main"] = "raises:" + type(e).__name__
+    finally:
+        sys.argv = old
+    for o, n in files.items():
+        q = os.path.join(d, n)
+        if os.path.exists(q):
+            with open(q, newline="") as f:
+                out["file:" + o] = f.read()
+    try:
+        with open(sp) as f:
+            s3 = read_3d_structure(f, None)
+        bi = A.parse_external_output(lp, A.ExternalTool.FR3D, s3)
+        s2, dbs, _ = A.extract_secondary_structure_from_external(s3, bi, None, "-f" in flags, False)
+        out["lib"] = {"csv": expected_csv(s2.baseInteractions), "json": expected_json(s2.baseInteractions), "bpseq": s2.bpseq,
+                      "n": len(expected_csv(bi)) - 1}
+    except Exception as e:  # noqa: BLE001
+        out["lib"] = None
+        out["lib_error"] = type(e).__name__
+    for n in os.listdir(d):
+        os.unlink(os.path.join(d, n))
+    os.rmdir(d)
+    return out
+
+
+def cli_adapter(ctx, res):
+    """`adapter.main` writes what the import functions return: for a structure file and an FR3D listing, every option set
+    ends normally and the CSV / JSON / BPSEQ files hold exactly the interactions (one row per interaction) and the BPSEQ
+    that `parse_external_output` + `extract_secondary_structure_from_external` give.  Structures: 184D as it is, and a copy
+    whose residues are renumbered into insertion-code siblings (5, 5A, 5B ...); listings: the repository's listing and
+    generated ones naming random residue pairs of the structure under labels of every kind."""
+    import csv as _csv
+    import io
+    from core import fork_map
+    from gen import g3
+    rng = ctx.rng
+    tests = os.environ.get("RNAPOLIS_TESTS", "/repo/tests")
+    base_st = g3.load(os.path.join(tests, "184D.cif"))
+    base_st = g3.mk_structure([r for r in base_st.residues if r.is_nucleotide])
+    jobs = []
+    tmp = tempfile.mkdtemp(prefix="c19-cli-gen-")
+
+    def cif_of(st):
+        p = os.path.join(tmp, "x.cif")
+        g3.write_cif(st, p)
+        t = open(p).read()
+        os.unlink(p)
+        return t
+
+    def unit(r):
+        return "XXXX|1|%s|%s|%d|||%s" % (r.chain, r.name, r.number, r.icode or "")
+    labels = LW_NAMES + ["n" + x for x in LW_NAMES[:4]] + list(STACK) + ["0BPh", "4BPh", "7BR", "ncsS", "bif", "cWWa"]
+    structures = [("184D", base_st)]
+    for _ in range(ctx.pick(3, 12)):
+        structures.append(("184D:icode-siblings", g3.icode_siblings(base_st, rng)))
+    optsets = [["-c"], ["-j"], ["-c", "-j", "-b"], ["-c", "-f"], []]
+    try:
+        for tag, st in structures:
+            text = cif_of(st)
+            rs = list(st.residues)
+            listings = []
+            if tag == "184D":
+                listings.append(open(os.path.join(tests, "184D-fr3d.txt")).read())
+            for _ in range(ctx.pick(3, 10)):
+                lines = []
+                for _ in range(rng.randint(1, 25)):
+                    a, b = rng.sample(rs, 2)
+                    lines.append("%s\t%s\t%s\t0" % (unit(a), rng.choice(labels), unit(b)))
+                listings.append("\n".join(lines) + "\n")
+            for l in listings:
+                for flags in optsets:
+                    jobs.append((text, l, flags, tag))
+    finally:
+        os.rmdir(tmp)
+    outs = fork_map(_adapter_main, [j[:3] for j in jobs], chunksize=1)
+    for (text, listing, flags, tag), o in zip(jobs, outs):
+        inp = {"family": "cli:adapter:" + tag, "flags": flags, "listing": listing, "structure_text": text}
+        res.count("cli-adapter:" + tag)
+        lib = o.get("lib")
+        if lib is None:
+            res.count("cli-adapter:library-raises:" + str(o.get("lib_error")))
+            continue
+        res.case(("cli-adapter", tag, tuple(flags), hash(listing)), nontrivial=lib["n"] > 0)
+        missing = [x for x in ("-c", "-j", "-b") if x in flags and "file:" + x not in o]
+        if o["main"] != "ok" and (missing or not flags):
+            res.fail("spec", "C19:cli:main-%s" % o["main"].replace("raises:", "raises:").split(":")[0] + ":" + o["main"].split(":")[-1], inp,
+                     "adapter.main ended with %s on a listing the import functions handle (%d interactions); not written: %s" % (o["main"], lib["n"], missing))
+            continue
+        if "file:-c" in o:
+            rows = [r for r in _csv.reader(io.StringIO(o["file:-c"], newline=""))]
+            if sorted(map(tuple, rows[1:])) != sorted(map(tuple, lib["csv"][1:])) or rows[:1] != lib["csv"][:1]:
+                res.fail("spec", "C19:cli:csv-differs-from-import", inp, "CSV has %d rows, the import gives %d interactions" % (len(rows) - 1, len(lib["csv"]) - 1))
+        if "file:-j" in o and json.loads(o["file:-j"]).get("baseInteractions") != lib["json"]:
+            res.fail("spec", "C19:cli:json-differs-from-import", inp, "baseInteractions of the JSON file are not the imported lists")
+        if "file:-b" in o and o["file:-b"].strip() != str(lib["bpseq"]).strip():
+            res.fail("spec", "C19:cli:bpseq-differs-from-import", inp, "BPSEQ file differs")
+
+
+def replay_cli(ctx, inp):
+    from core import fork_map
+    o = fork_map(_adapter_main, [(inp["structure_text"], inp["listing"], inp["flags"])], nproc=1)[0]
+    print("adapter.main", " ".join(inp["flags"]), "->", o["main"])
+    for k in sorted(o):
+        if k.startswith("file:"):
+            print("--- written for %s:\n%s" % (k[5:], o[k][:1200]))
+    if o.get("lib"):
+        print("--- import functions: %d interactions" % o["lib"]["n"])
+    if o["main"] != "ok":
+        print("SPEC FAILURE C19:cli:main-%s" % o["main"])
+
+
 def replay(ctx, data):
+    if str(data.get("input", {}).get("family", "")).startswith("cli:adapter"):
+        return replay_cli(ctx, data["input"])
     """re-run one stored input through implementation, model and the statement's oracle"""
     inp = data["input"]
     D = ctx.driver
